@@ -57,7 +57,7 @@ def shape_width(desc):
 
 
 def n_cases(tier):
-    return 160 if tier == "quick" else 2400
+    return 1200 if tier == "quick" else 16000
 
 
 def gen_case(rng, tier, idx):
